@@ -85,7 +85,7 @@ def crashLine (st : CrashSt) (line : String) : CrashSt × String :=
     let img := (st.prev.applyAll (st.acts.take (nat! k))).crash (kindOf kind)
     ({ cur := img, prev := img, acts := [] }, "ok")
   | ["state"] => (st, summary st.cur)
-  | ["inv"] => (st, if quiescentB st.cur then "true" else "false")
+  | ["inv"] => (st, if quiescentSB st.cur then "true" else "false")
   | _ => (st, "bad-op")
 
 end Driver
